@@ -89,6 +89,12 @@ def table():
     channel = {"C": {"kind": "channel"}}
     rows.append(row("Channel iteration over closed channel", {"op": "iter", "on": "C"}, channel,
                     setup=[{"op": "close", "on": "C"}], between=("iter+", "iter-")))
+    feeder = [{"name": "h", "ops": [{"op": "sleep", "d": 0.25}, {"op": "put", "on": "C", "v": 1},
+                                    {"op": "sleep", "d": 0.25}, {"op": "put", "on": "C", "v": 2},
+                                    {"op": "sleep", "d": 0.25}, {"op": "put", "on": "C", "v": 3}]}]
+    rows.append(row("Channel iteration step with buffered message",
+                    {"op": "iter", "on": "C", "n": 3, "body": [{"op": "sleep", "d": 1}]}, channel,
+                    helpers=feeder, between=("iter.next", "iter.item"), spin_after=1.25))
     rows.append(row("Channel.put", {"op": "put", "on": "C", "v": 1}, channel))
     rows.append(row("Channel.close", {"op": "close", "on": "C"}, channel))
     rows.append(row("Channel.close again", {"op": "close", "on": "C"}, channel,
